@@ -1,7 +1,9 @@
 /-
   Model of the interface generator: /repo/cmd/varlink-go-interface-generator/main.go,
   functions `writeType`, `writeDocString`, `generateTemplate` — a line-by-line transliteration that
-  produces the exact text `ret_string` handed to `format.Source` (after the `@IMPORTS@` replacement).
+  produces the exact text handed to `format.Source`: the header (`head`: generated-code line, interface
+  documentation, package clause, import block) followed by the declarations (`b`), which the Go code
+  generates first while recording in `b.usesJSON` / `b.usesFmt` which packages they refer to.
 
   Input is the tree `idl.New` returns (`Varlink.Idl.Idl`); `generateTemplate` itself first trims trailing
   newlines of the description and parses (`generateTemplate` below takes the parser as a parameter).
@@ -45,7 +47,9 @@ def convKind : Ty → ConvKind
   | .maybe _ => .convParen
   | _ => .plain
 
-/-! ## `writeType` (main.go:15-74) -/
+/-! ## `writeType` (main.go:25-85)
+
+  The text. The side effect `b.usesJSON = true` of the `TypeObject` case is `tyUsesObject` below. -/
 
 mutual
 /-- `writeType(b, t, json, ident)` for `t != nil`; returns what is appended to the buffer -/
@@ -75,12 +79,33 @@ def writeFields : Fields → Bool → Nat → Option Bytes
     | _, _ => none
 end
 
-/-- `writeDocString` (main.go:76-84) -/
+mutual
+/-- does a completed call `writeType(b, t, …)` pass through the `TypeObject` case, i.e. set `b.usesJSON`
+    (a field without type makes the call panic before it returns: `writeFields … = none`) -/
+def tyUsesObject : Ty → Bool
+  | .object => true
+  | .maybe t => tyUsesObject t
+  | .array t => tyUsesObject t
+  | .map t => tyUsesObject t
+  | .struct fs => fsUsesObject fs
+  | _ => false
+def fsUsesObject : Fields → Bool
+  | .nil => false
+  | .typed _ t r => tyUsesObject t || fsUsesObject r
+  | .bare _ r => fsUsesObject r
+end
+
+/-- `writeDocString` (main.go:115-123) -/
 def writeDocString (s : Bytes) : Bytes :=
   if s.isEmpty then [] else str "// " ++ replaceByte nl (str "\n// ") s ++ str "\n"
 
-/-- package name (main.go:94) -/
-def pkgName (name : Bytes) : Bytes := toLower (replaceByte dash [] (replaceByte dot [] name))
+/-- main.go:133: the interface name in lower case without dots and dashes -/
+def pkgBase (name : Bytes) : Bytes := toLower (replaceByte dash [] (replaceByte dot [] name))
+
+/-- package name (main.go:133-137): a Go keyword or `main` gets a trailing underscore -/
+def pkgName (name : Bytes) : Bytes :=
+  let p := pkgBase name
+  if goKeywords.contains p || p == str "main" then p ++ str "_" else p
 
 /-! ## loops over a field list -/
 
@@ -102,7 +127,7 @@ def eachFieldSep (sep : Bytes) (f : Bytes → Ty → Option Bytes) (first : Bool
     | some a, some b => some ((if first then [] else sep) ++ a ++ b)
     | _, _ => none
 
-/-- loops that only read `f.Name` (main.go:127-139): never crash -/
+/-- loops that only read `f.Name` (main.go:170-183): never crash -/
 def eachName (f : Bytes → Bool → Bytes) : Fields → Bytes
   | .nil => []
   | .bare n r => f n r.isNil ++ eachName f r
@@ -127,7 +152,7 @@ def resultList (ind : Nat) (fs : Fields) : Option Bytes :=
 def resultTypes (ind : Nat) (fs : Fields) : Option Bytes :=
   eachField (fun _ t => (writeType t false ind).map (fun ty => ty ++ str ", ")) fs
 
-/-- copy of the parameters into the tagged struct (main.go:218-233, 296-311, 392-407, 429-444):
+/-- copy of the parameters into the tagged struct (main.go:263-278, 341-356, 437-452, 474-489):
     `\t<dst>.<Field> = <conversion>(<name><suffix>)\n` -/
 def copyIn (dst suffix : Bytes) (fs : Fields) : Option Bytes :=
   eachField (fun n t =>
@@ -138,7 +163,7 @@ def copyIn (dst suffix : Bytes) (fs : Fields) : Option Bytes :=
         str "\t" ++ dst ++ str "." ++ title n ++ str " = (" ++ ty ++ str ")(" ++ n ++ suffix ++ str ")\n")
     | .plain => some (str "\t" ++ dst ++ str "." ++ title n ++ str " = " ++ n ++ suffix ++ str "\n")) fs
 
-/-- copy of the decoded reply into the named results (main.go:260-275, 339-354) -/
+/-- copy of the decoded reply into the named results (main.go:305-320, 384-399) -/
 def copyOut (fs : Fields) : Option Bytes :=
   eachField (fun n t =>
     match convKind t with
@@ -148,7 +173,7 @@ def copyOut (fs : Fields) : Option Bytes :=
         str "\t\t" ++ n ++ str "_out_ = (" ++ ty ++ str ")(out." ++ title n ++ str ")\n")
     | .plain => some (str "\t\t" ++ n ++ str "_out_ = out." ++ title n ++ str "\n")) fs
 
-/-- arguments of the dispatcher's call (main.go:482-497) -/
+/-- arguments of the dispatcher's call (main.go:527-542) -/
 def dispatchArgs (fs : Fields) : Option Bytes :=
   eachField (fun n t =>
     match convKind t with
@@ -168,7 +193,7 @@ def lookupAliasLast : List Member → Bytes → Option Ty
     | none => if m = n then some ty else none
   | _ :: r, n => lookupAliasLast r n
 
-/-- `resolvesToObject` (main.go:76-102): is the type `object`, possibly behind optionals and named types; `k`
+/-- `resolvesToObject` (main.go:87-113): is the type `object`, possibly behind optionals and named types; `k`
     iterations are left -/
 def resolvesToObjectF (aliases : List Member) : Nat → Ty → Bool
   | 0, _ => false
@@ -184,7 +209,7 @@ def resolvesToObjectF (aliases : List Member) : Nat → Ty → Bool
 def resolvesToObject (t : Idl) (ty : Ty) : Bool :=
   resolvesToObjectF t.aliases (2 * t.aliases.length + 3) ty
 
-/-- main.go:139-149: only aliases that resolve to object are Go type aliases (`type A = B`), because a defined
+/-- main.go:151-160: only aliases that resolve to object are Go type aliases (`type A = B`), because a defined
     type would lose json.RawMessage's MarshalJSON/UnmarshalJSON; everything else stays a defined type, which may
     be recursive -/
 def aliasDecl (t : Idl) : Member → Option Bytes
@@ -193,10 +218,10 @@ def aliasDecl (t : Idl) : Member → Option Bytes
       ++ str "\n\n")
   | _ => some []
 
-/-- `e.Type` after main.go:97-101 (a missing type is an empty struct) -/
+/-- `e.Type` after main.go:139-144 (a missing type is an empty struct) -/
 def errTy (ty : Option Ty) : Ty := ty.getD (.struct .nil)
 
-/-- main.go:119-144 -/
+/-- main.go:162-188 -/
 def errorDecl (iface : Bytes) : Member → Option Bytes
   | .error n d oty =>
     let ty := errTy oty
@@ -216,7 +241,7 @@ def errorDecl (iface : Bytes) : Member → Option Bytes
       ++ str "}\n\n")
   | _ => some []
 
-/-- main.go:149-161 -/
+/-- main.go:193-206 -/
 def dispatchErrorCase (iface : Bytes) : Member → Bytes
   | .error n _ _ =>
     str "\t\tcase \"" ++ iface ++ str "." ++ n ++ str "\":\n"
@@ -232,7 +257,7 @@ def dispatchErrorCase (iface : Bytes) : Member → Bytes
     ++ str "\t\t\treturn &param\n"
   | _ => []
 
-/-- main.go:146-165 -/
+/-- main.go:190-210 -/
 def dispatchErrorFunc (iface : Bytes) (errors : List Member) : Bytes :=
   str "func Dispatch_Error(err error) error {\n"
   ++ str "\tif e, ok := err.(*varlink.Error); ok {\n"
@@ -243,7 +268,7 @@ def dispatchErrorFunc (iface : Bytes) (errors : List Member) : Bytes :=
   ++ str "\treturn err\n"
   ++ str "}\n\n"
 
-/-- `var in <tagged struct>` + copies, or nothing (main.go:214-237 / 292-315), ending in the
+/-- `var in <tagged struct>` + copies, or nothing (main.go:259-282 / 337-360), ending in the
     `receive, err := c.<callee>(ctx, "<iface>.<m>", in|nil<tail>` line -/
 def sendPrologue (iface name callee tail : Bytes) (inTy : Ty) : Option Bytes :=
   let fs := tyFields inTy
@@ -256,14 +281,14 @@ def sendPrologue (iface name callee tail : Bytes) (inTy : Ty) : Option Bytes :=
   else
     some (str "\treceive, err := c." ++ callee ++ str "(ctx, \"" ++ iface ++ str "." ++ name ++ str "\", nil" ++ tail)
 
-/-- `var out <tagged struct>` + receive, or receive into nil (main.go:248-255 / 327-334) -/
+/-- `var out <tagged struct>` + receive, or receive into nil (main.go:293-300 / 372-379) -/
 def receiveBody (lhs : Bytes) (outTy : Ty) : Option Bytes :=
   if !(tyFields outTy).isNil then
     (writeType outTy true 2).map (fun t =>
       str "\t\tvar out " ++ t ++ str "\n" ++ str "\t\t" ++ lhs ++ str " = receive(ctx, &out)\n")
   else some (str "\t\t" ++ lhs ++ str " = receive(ctx, nil)\n")
 
-/-- main.go:170-357, one method -/
+/-- main.go:214-403, one method -/
 def methodClient (iface : Bytes) : Member → Option Bytes
   | .method n d inTy outTy =>
     let ins := tyFields inTy
@@ -317,7 +342,7 @@ def methodClient (iface : Bytes) : Member → Option Bytes
     | _, _, _, _, _, _, _, _, _ => none
   | _ => some []
 
-/-- main.go:363-370, one line of the service interface -/
+/-- main.go:408-415, one line of the service interface -/
 def ifaceMethod : Member → Option Bytes
   | .method n _ inTy _ =>
     (paramList (str "_") 1 (tyFields inTy)).map (fun ps =>
@@ -328,7 +353,7 @@ def ifaceMethod : Member → Option Bytes
 def replyParams (fs : Fields) : Option Bytes :=
   eachFieldSep (str ", ") (fun n t => (writeType t false 1).map (fun ty => n ++ str "_ " ++ ty)) true fs
 
-/-- main.go:379-411 -/
+/-- main.go:424-456 -/
 def errorReply (iface : Bytes) : Member → Option Bytes
   | .error n d oty =>
     let fs := tyFields (errTy oty)
@@ -343,7 +368,7 @@ def errorReply (iface : Bytes) : Member → Option Bytes
     | _, _ => none
   | _ => some []
 
-/-- main.go:415-450 -/
+/-- main.go:460-495 -/
 def methodReply : Member → Option Bytes
   | .method n _ _ outTy =>
     let fs := tyFields outTy
@@ -359,7 +384,7 @@ def methodReply : Member → Option Bytes
     | none => none
   | _ => some []
 
-/-- main.go:454-464 -/
+/-- main.go:499-509 -/
 def dummyImpl (iface : Bytes) : Member → Option Bytes
   | .method n d inTy _ =>
     (paramList (str "_") 1 (tyFields inTy)).map (fun ps =>
@@ -370,7 +395,7 @@ def dummyImpl (iface : Bytes) : Member → Option Bytes
       ++ str "}\n\n")
   | _ => some []
 
-/-- main.go:470-504 -/
+/-- main.go:515-549 -/
 def dispatchCase (pkg : Bytes) : Member → Option Bytes
   | .method n _ inTy _ =>
     let fs := tyFields inTy
@@ -393,30 +418,30 @@ def dispatchCase (pkg : Bytes) : Member → Option Bytes
         ++ str "\n")
   | _ => some []
 
-/-- the raw-string splice of the description (main.go:519-520) -/
+/-- the raw-string splice of the description (main.go:564-565) -/
 def quoteDescription (d : Bytes) : Bytes :=
   replaceByte cr (str "` + \"\\r\" + `") (replaceByte backtick (str "` + \"`\" + `") d)
 
-/-- the expression after `return ` in `VarlinkGetName` (main.go:513) -/
+/-- the expression after `return ` in `VarlinkGetName` (main.go:558) -/
 def nameLiteral (name : Bytes) : Bytes := str "`" ++ name ++ str "`"
 
-/-- the expression after `return ` in `VarlinkGetDescription` (main.go:519-522) -/
+/-- the expression after `return ` in `VarlinkGetDescription` (main.go:564-567) -/
 def descLiteral (description : Bytes) : Bytes := str "`" ++ quoteDescription description ++ str "\n`"
 
-/-- main.go:510-513, up to the returned expression -/
+/-- main.go:555-558, up to the returned expression -/
 def tailHead : Bytes :=
   str "// Generated varlink interface name\n\n"
   ++ str "func (s *VarlinkInterface) VarlinkGetName() string {\n"
   ++ str "\treturn "
 
-/-- main.go:513-522, between the two returned expressions -/
+/-- main.go:558-567, between the two returned expressions -/
 def tailMid : Bytes :=
   str "\n" ++ str "}\n\n"
   ++ str "// Generated varlink interface description\n\n"
   ++ str "func (s *VarlinkInterface) VarlinkGetDescription() string {\n"
   ++ str "\treturn "
 
-/-- main.go:522-532 -/
+/-- main.go:567-577 -/
 def tailEnd (pkg : Bytes) : Bytes :=
   str "\n}\n\n"
   ++ str "// Generated service interface\n\n"
@@ -427,11 +452,11 @@ def tailEnd (pkg : Bytes) : Bytes :=
   ++ str "\treturn &VarlinkInterface{m}\n"
   ++ str "}\n"
 
-/-- main.go:510-532: `VarlinkGetName` returns `nameLiteral`, `VarlinkGetDescription` returns `descLiteral` -/
+/-- main.go:555-577: `VarlinkGetName` returns `nameLiteral`, `VarlinkGetDescription` returns `descLiteral` -/
 def tailText (pkg name description : Bytes) : Bytes :=
   tailHead ++ nameLiteral name ++ tailMid ++ descLiteral description ++ tailEnd pkg
 
-/-- the buffer `b` at main.go:534 (`ret_string` before the import patch) -/
+/-- the buffer `b` at main.go:579 (written from main.go:148 on): the declarations, generated before the header -/
 def bodyText (t : Idl) : Option Bytes :=
   let pkg := pkgName t.name
   match concatOpt (aliasDecl t) t.aliases, concatOpt (errorDecl t.name) t.errors,
@@ -440,11 +465,7 @@ def bodyText (t : Idl) : Option Bytes :=
         concatOpt (dummyImpl t.name) t.methods, concatOpt (dispatchCase pkg) t.methods with
   | some aliases, some errors, some clients, some ifaceMethods, some errorReplies, some methodReplies,
     some dummies, some cases =>
-    some (str "// Code generated by github.com/varlink/go/cmd/varlink-go-interface-generator, DO NOT EDIT.\n\n"
-      ++ writeDocString t.doc
-      ++ str "package " ++ pkg ++ str "\n\n"
-      ++ str "@IMPORTS@\n\n"
-      ++ str "// Generated type declarations\n\n"
+    some (str "// Generated type declarations\n\n"
       ++ aliases
       ++ errors
       ++ dispatchErrorFunc t.name t.errors
@@ -473,19 +494,45 @@ def bodyText (t : Idl) : Option Bytes :=
       ++ tailText pkg t.name t.description)
   | _, _, _, _, _, _, _, _ => none
 
-/-- the import list (main.go:536-545) -/
-def importList (body : Bytes) : List Bytes :=
-  [str "\"github.com/varlink/go/varlink\""]
-  ++ (if contains (str "context.Context") body then [str "\"context\""] else [])
-  ++ (if contains (str "json.RawMessage") body then [str "\"encoding/json\""] else [])
-  ++ (if contains (str "fmt.Sprintf") body then [str "\"fmt\""] else [])
+/-! ## the imports: what the declarations were recorded to use
 
-/-- main.go:546 -/
-def patchImports (body : Bytes) : Bytes :=
-  replaceFirst (str "@IMPORTS@") (str "import (\n" ++ join (str "\n\t") (importList body) ++ str "\n)") body
+  `b.usesJSON` is set by `writeType` in the `TypeObject` case and once per error by the `Dispatch_Error` loop;
+  `b.usesFmt` by the `Error()` method of an error with parameters. `writeType` is called on the whole type of
+  every alias and error and on the types of the input and output fields of every method (and on `m.In` / `m.Out`
+  themselves only when they have fields), so for a description whose declarations were generated without a
+  panic the two flags are the following functions of the tree. -/
 
-/-- the argument of `format.Source` -/
-def genTextO (t : Idl) : Option Bytes := (bodyText t).map patchImports
+def memberUsesJson : Member → Bool
+  | .alias _ _ ty => tyUsesObject ty
+  | .method _ _ i o => fsUsesObject (tyFields i) || fsUsesObject (tyFields o)
+  | .error _ _ _ => true
+
+/-- `b.usesJSON` at main.go:581 -/
+def usesJson (t : Idl) : Bool := t.members.any memberUsesJson
+
+def memberUsesFmt : Member → Bool
+  | .error _ _ oty => !(tyFields (errTy oty)).isNil
+  | _ => false
+
+/-- `b.usesFmt` at main.go:584 -/
+def usesFmt (t : Idl) : Bool := t.members.any memberUsesFmt
+
+/-- the import list (main.go:579-586): `varlink` and `context` are used by the fixed part of every file -/
+def importList (t : Idl) : List Bytes :=
+  [str "\"github.com/varlink/go/varlink\"", str "\"context\""]
+  ++ (if usesJson t then [str "\"encoding/json\""] else [])
+  ++ (if usesFmt t then [str "\"fmt\""] else [])
+
+/-- the buffer `head` (main.go:588-592): generated-code line, interface documentation, package clause,
+    import block. Documentation and names are only copied; nothing is searched or replaced in them. -/
+def headText (t : Idl) : Bytes :=
+  str "// Code generated by github.com/varlink/go/cmd/varlink-go-interface-generator, DO NOT EDIT.\n\n"
+  ++ writeDocString t.doc
+  ++ str "package " ++ pkgName t.name ++ str "\n\n"
+  ++ str "import (\n" ++ join (str "\n\t") (importList t) ++ str "\n)\n\n"
+
+/-- the argument of `format.Source` (main.go:594): `append(head.Bytes(), b.Bytes()...)` -/
+def genTextO (t : Idl) : Option Bytes := (bodyText t).map (headText t ++ ·)
 
 def genText (t : Idl) : Outcome Bytes := Outcome.ofOption (genTextO t)
 
@@ -495,7 +542,7 @@ inductive TemplateResult where
   | crash
   | text (pkgname : Bytes) (src : Bytes)
 
-/-- `generateTemplate` (main.go:86-92, then the above); `parse` is `idl.New` -/
+/-- `generateTemplate` (main.go:125-131, then the above); `parse` is `idl.New` -/
 def generateTemplate (parse : Bytes → Option Idl) (description : Bytes) : TemplateResult :=
   match parse (trimRightNL description) with
   | none => .parseError
